@@ -35,6 +35,121 @@ def seg(src_lines, node):
     return starts[node.lineno - 1] + node.col_offset, starts[node.end_lineno - 1] + node.end_col_offset
 
 
+def mutants_of2(path, src):
+    """second operator set: Python-semantics slips (None vs truthiness, slices, first/last, string methods, path functions, dropped keyword
+    arguments, dropped raise, emptied if-bodies, reversed / truncated loops, tuple order, dict access)"""
+    tree = ast.parse(src)
+    lines = src.splitlines(keepends=True)
+
+    def off(lineno, col):
+        pre = "".join(lines[: lineno - 1])
+        return len(pre) + len(lines[lineno - 1].encode("utf-8")[:col].decode("utf-8"))
+
+    out = []
+
+    def rep(node, new_text, kind):
+        a, b = off(node.lineno, node.col_offset), off(node.end_lineno, node.end_col_offset)
+        out.append((kind, node.lineno, src[a:b][:60].replace("\n", " "), src[:a] + new_text + src[b:]))
+
+    parents = {}
+    for n in ast.walk(tree):
+        for c in ast.iter_child_nodes(n):
+            parents[c] = n
+    U = ast.unparse
+    SWAP_METH = {"startswith": "endswith", "endswith": "startswith", "rsplit": "split", "split": "rsplit", "lstrip": "strip", "rstrip": "strip", "strip": "rstrip", "append": "insert0", "add": None, "update": None,
+                 "rfind": "find", "find": "rfind", "lower": "DROP", "upper": "DROP", "ljust": "rjust", "rjust": "ljust", "discard": None, "extend": "append", "pop": None, "items": None, "keys": None}
+    SWAP_FUNC = {"os.path.dirname": "os.path.basename", "os.path.basename": "os.path.dirname", "os.path.abspath": "DROP", "os.path.normpath": "DROP", "os.path.isfile": "os.path.exists", "os.path.isdir": "os.path.exists",
+                 "os.path.exists": "os.path.isfile", "min": "max", "max": "min", "any": "all", "all": "any", "len": None, "reversed": "DROP", "list": None, "set": "list", "str": None, "int": None}
+    for n in ast.walk(tree):
+        if isinstance(n, ast.Compare) and len(n.ops) == 1 and isinstance(n.ops[0], (ast.Is, ast.IsNot)) and isinstance(n.comparators[0], ast.Constant) and n.comparators[0].value is None:
+            rep(n, f"({'not ' if isinstance(n.ops[0], ast.Is) else ''}{U(n.left)})", "none->truth")
+        elif isinstance(n, (ast.If, ast.While, ast.IfExp)) and isinstance(n.test, (ast.Name, ast.Attribute)):
+            rep(n.test, f"({U(n.test)} is not None)", "truth->none")
+        if isinstance(n, ast.UnaryOp) and isinstance(n.op, ast.Not) and isinstance(n.operand, (ast.Name, ast.Attribute)) and isinstance(parents.get(n), (ast.If, ast.While, ast.IfExp)):
+            rep(n, f"({U(n.operand)} is None)", "nottruth->none")
+        if isinstance(n, ast.Subscript):
+            sl = n.slice
+            if isinstance(sl, ast.Slice):
+                if sl.lower is not None and sl.upper is None:
+                    rep(n, f"{U(n.value)}[:]", "slice-lower-drop")
+                    if isinstance(sl.lower, ast.Constant) and isinstance(sl.lower.value, int):
+                        rep(n, f"{U(n.value)}[{sl.lower.value + 1}:]", "slice-lower+1")
+                if sl.upper is not None and sl.lower is None:
+                    rep(n, f"{U(n.value)}[:]", "slice-upper-drop")
+                    if isinstance(sl.upper, ast.Constant) and isinstance(sl.upper.value, int):
+                        rep(n, f"{U(n.value)}[:{sl.upper.value + 1}]", "slice-upper+1")
+            elif isinstance(sl, ast.Constant) and sl.value == 0 and isinstance(n.ctx, ast.Load):
+                rep(n, f"{U(n.value)}[-1]", "first->last")
+            elif isinstance(sl, ast.Constant) and isinstance(sl.value, str) and isinstance(n.ctx, ast.Load):
+                rep(n, f"{U(n.value)}.get({sl.value!r})", "subscript->get")
+        if isinstance(n, ast.BinOp) and isinstance(n.op, (ast.Add, ast.Sub)) and isinstance(n.right, ast.Constant) and isinstance(n.right.value, int) and not isinstance(n.right.value, bool):
+            rep(n, f"({U(n.left)})", "plusminus-const-drop")
+            rep(n, f"({U(n.left)} {'-' if isinstance(n.op, ast.Add) else '+'} {n.right.value})", "plusminus-swap")
+        if isinstance(n, ast.Call):
+            fn = U(n.func)
+            if isinstance(n.func, ast.Attribute) and n.func.attr in SWAP_METH and SWAP_METH[n.func.attr]:
+                tgt = SWAP_METH[n.func.attr]
+                args = ", ".join([U(a) for a in n.args] + [f"{k.arg}={U(k.value)}" for k in n.keywords if k.arg])
+                if tgt == "DROP" and not n.args:
+                    rep(n, f"{U(n.func.value)}", "method-drop")
+                elif tgt == "insert0" and len(n.args) == 1 and isinstance(parents.get(n), ast.Expr):
+                    rep(n, f"{U(n.func.value)}.insert(0, {U(n.args[0])})", "append->insert0")
+                elif tgt not in ("DROP", "insert0"):
+                    rep(n, f"{U(n.func.value)}.{tgt}({args})", "method-swap")
+            if isinstance(n.func, ast.Attribute) and n.func.attr == "get" and len(n.args) == 2:
+                rep(n, f"{U(n.func.value)}.get({U(n.args[0])})", "get-default-drop")
+            if fn in SWAP_FUNC and SWAP_FUNC[fn]:
+                tgt = SWAP_FUNC[fn]
+                if tgt == "DROP" and len(n.args) == 1 and not n.keywords:
+                    rep(n, f"({U(n.args[0])})", "func-drop")
+                elif tgt != "DROP":
+                    args = ", ".join([U(a) for a in n.args] + [f"{k.arg}={U(k.value)}" for k in n.keywords if k.arg])
+                    rep(n, f"{tgt}({args})", "func-swap")
+            if n.keywords and not fn.startswith(("logger.", "click.")) and not any(k.arg is None for k in n.keywords):
+                for i, k in enumerate(n.keywords):
+                    rest = [U(a) for a in n.args] + [f"{k2.arg}={U(k2.value)}" for j, k2 in enumerate(n.keywords) if j != i]
+                    rep(n, f"{fn}({', '.join(rest)})", "kwarg-drop")
+            if fn == "os.path.join" and len(n.args) == 2:
+                rep(n, f"({U(n.args[1])})", "join-drop-first")
+            if fn == "os.path.relpath" and len(n.args) == 2:
+                rep(n, f"({U(n.args[0])})", "relpath-drop")
+        if isinstance(n, ast.Raise) and n.exc is not None:
+            rep(n, "pass", "raise-drop")
+        if isinstance(n, ast.If) and not n.orelse and len(n.body) >= 1 and not all(isinstance(b, (ast.Raise, ast.Continue, ast.Break, ast.Return, ast.Pass)) or (isinstance(b, ast.Expr) and isinstance(b.value, ast.Call) and U(b.value.func).startswith("logger.")) for b in n.body):
+            first, last = n.body[0], n.body[-1]
+            a, b = off(first.lineno, first.col_offset), off(last.end_lineno, last.end_col_offset)
+            out.append(("if-body-drop", n.lineno, src[a:b][:60].replace("\n", " "), src[:a] + "pass" + src[b:]))
+        if isinstance(n, ast.If) and n.orelse and not (len(n.orelse) == 1 and isinstance(n.orelse[0], ast.If)):
+            first, last = n.orelse[0], n.orelse[-1]
+            a, b = off(first.lineno, first.col_offset), off(last.end_lineno, last.end_col_offset)
+            out.append(("else-body-drop", n.lineno, src[a:b][:60].replace("\n", " "), src[:a] + "pass" + src[b:]))
+        if isinstance(n, ast.For) and not isinstance(n.iter, ast.Call):
+            rep(n.iter, f"list({U(n.iter)})[:1]", "loop-first-only")
+            rep(n.iter, f"list({U(n.iter)})[::-1]", "loop-reversed")
+        if isinstance(n, ast.Return) and isinstance(n.value, ast.Tuple) and len(n.value.elts) == 2:
+            rep(n.value, f"{U(n.value.elts[1])}, {U(n.value.elts[0])}", "return-tuple-swap")
+        if isinstance(n, ast.Assign) and len(n.targets) == 1 and isinstance(n.targets[0], ast.Tuple) and isinstance(n.value, ast.Tuple) and len(n.value.elts) == 2:
+            rep(n.value, f"{U(n.value.elts[1])}, {U(n.value.elts[0])}", "assign-tuple-swap")
+        if isinstance(n, ast.Constant) and isinstance(n.value, str) and n.value in ("c4", "md5", "sha1", "xxh64", "xxh3", "xxh128") and not isinstance(parents.get(n), (ast.Expr, ast.JoinedStr)):
+            rep(n, repr({"c4": "md5", "md5": "sha1", "sha1": "md5", "xxh64": "xxh3", "xxh3": "xxh64", "xxh128": "xxh64"}[n.value]), "const-format")
+        if isinstance(n, ast.Constant) and isinstance(n.value, str) and n.value in (".", "..", "/", "", "._", ".mhl", "wb", "rb", "r", "w") and not isinstance(parents.get(n), (ast.Expr, ast.JoinedStr)):
+            rep(n, repr({".": "", "..": ".", "/": "", "": ".", "._": ".", ".mhl": "mhl", "wb": "ab", "rb": "r", "r": "rb", "w": "a"}[n.value]), "const-str")
+    good, seen = [], set()
+    for kind, line, frag, new_src in out:
+        if new_src == src:
+            continue
+        h = hashlib.sha1(new_src.encode()).hexdigest()
+        if h in seen:
+            continue
+        seen.add(h)
+        try:
+            ast.parse(new_src)
+        except SyntaxError:
+            continue
+        good.append({"file": path, "kind": kind, "line": line, "fragment": frag, "src": new_src})
+    return good
+
+
 def mutants_of(path, src):
     tree = ast.parse(src)
     # byte offsets vs str offsets: sources are ASCII except a few comments; use utf-8 aware conversion per line
@@ -171,13 +286,14 @@ def main():
     ap.add_argument("--out", default="/tmp/mutscan")
     ap.add_argument("--stride", type=int, default=1, help="take every n-th mutant")
     ap.add_argument("--offset", type=int, default=0)
+    ap.add_argument("--ops", type=int, default=1, help="operator set: 1 (logic / constants / dropped statements) or 2 (Python-semantics slips)")
     a = ap.parse_args()
     os.makedirs(a.out, exist_ok=True)
     checks = ["C%02d" % i for i in range(1, 21)]
     ms = []
     for f in a.files.split(","):
         src = open(os.path.join(REPO, f), encoding="utf-8").read()
-        ms += mutants_of(f, src)
+        ms += (mutants_of2 if a.ops == 2 else mutants_of)(f, src)
     ms = ms[a.offset :: a.stride]
     if a.max:
         ms = ms[: a.max]
